@@ -63,8 +63,8 @@ def check_dispatcher(ctx, rule: str, wakeups=True, consumers=True, reconnect=Non
             joined = f"{field}.join" in stop_names
             def none_alive(n, field=field):
                 """The facts at n say that no thread object exists or the existing one is not alive."""
-                return any((t == f"{field} is None" and p) or (t == f"{field}.is_alive()" and not p) or (t.startswith("ALL[") and f"+{field}.is_alive()" in t.replace("]", ";") and not p)
-                           for t, p in cnd.facts(scfg, n, fn=start.node))
+                about = {(t, p) for t, p in cnd.facts(scfg, n, fn=start.node) if field in t}
+                return about in ({(f"ALL[+{field}.is_alive();-{field} is None]", False)}, {(f"{field}.is_alive()", False), (f"{field} is None", False)}, {(f"{field}.is_alive()", False)})
 
             alive_guard = none_alive(node)
             # a guard only helps if the start() call of that thread is under it as well
@@ -89,6 +89,23 @@ def check_dispatcher(ctx, rule: str, wakeups=True, consumers=True, reconnect=Non
                 ok = flag_set and bool(jn) and any(cfg2.dominates(s, jn[0]) for s in sets) and any(cfg2.dominates(f, jn[0]) for f in fl_nodes)
                 ctx.ob(rule, "ProtocolDispatcher.stop", ok, f"stop() sets the stop flag and wakes {field} before joining it" if ok else
                        f"stop() joins {field} without first setting its stop flag and trigger: the join never returns", key="stop-protocol " + field, where=stop.where)
+    # every thread start() creates is started, with its stop flag lowered first
+    for field, target, st in creations:
+        node = next(n for n in scfg.real_nodes() if n.ast is st)
+        starts = [n for n in scfg.real_nodes() if any(c == f"{field}.start" for c in n.call_names())]
+        ok = bool(starts) and not scfg.path_exists(node, scfg.exit, avoid=starts, no_exc=True)
+        ctx.ob(rule, "ProtocolDispatcher.start", ok, f"thread {field} is started on every path that creates it" if ok else
+               f"thread {field} (target {target}) is created but not started: nothing is received / dispatched on this link", key="started " + field, where=start.where)
+        tfunc = cls.methods.get((target or "").split(".")[-1])
+        if tfunc is None or not starts:
+            continue
+        heads_t = [n for n in cfg_of(tfunc.node).nodes if n.kind == "test" and n.label == "while"]
+        flags = [t for h in heads_t[:1] for t, pol in cnd.canon(h.ast, True) if not pol and t.startswith("self._stop")]
+        for fl in flags:
+            lowered = [n for n in scfg.real_nodes() if isinstance(n.ast, ast.Assign) and any(dotted(t) == fl for t in n.ast.targets)]
+            ok = bool(lowered) and all(rules.literal(start_fn, n.ast.value) == (True, False) for n in lowered) and any(scfg.dominates(n, starts[0]) for n in lowered)
+            ctx.ob(rule, "ProtocolDispatcher.start", ok, f"{fl} is lowered before {field} starts" if ok else
+                   f"{fl} is not set to False before {field} is started: the thread sees a stop request and ends at once (after a reconnect: the previous stop())", key="flag-lowered " + fl, where=start.where)
     if consumers:
         # exactly one consumer function of the dispatch queue, FIFO, one at a time
         init = repo.method("ProtocolDispatcher", "__init__", inherited=False)
@@ -122,6 +139,13 @@ def check_dispatcher(ctx, rule: str, wakeups=True, consumers=True, reconnect=Non
             ctx.ob(rule, f.qualname, ok, "the trigger is cleared right after the wait and before the work is looked at (no lost wake-up)" if ok else
                    "the trigger is cleared after the work was examined/processed: a trigger that arrives in between is erased and the queued work waits until unrelated traffic arrives",
                    key="clear-before-work", where=f.where)
+        # the work is done for every wake-up that is not a stop request
+        heads_f = [n for n in cfg.nodes if n.kind == "test" and n.label == "while"]
+        flags = {t for h in heads_f[:1] for t, pol in cnd.canon(h.ast, True) if not pol and t.startswith("self._stop")}
+        odd = sorted((t, pol) for t, pol in cnd.facts(cfg, K) if not ((t in flags and not pol) or "_dispatch_queue" in t))
+        ok = bool(flags) and not odd
+        ctx.ob(rule, f.qualname, ok, "after a wake-up the target runs unless a stop was requested" if ok else
+               f"the target runs only under {cnd.show(set(odd)) if odd else 'an unrecognised loop condition'}: wake-ups without a stop request do no work", key="works-unless-stopped", where=f.where)
         guarded = callgraph.broadly_guarded(f.node, next(c for c in K.calls if call_name(c) == work))
         ctx.ob(rule, f.qualname, guarded, "an exception of the target does not end the thread" if guarded else "an exception raised by the target ends the thread: nothing is received/dispatched afterwards", key="target-contained", where=f.where)
     if consumers:
@@ -139,6 +163,16 @@ def check_dispatcher(ctx, rule: str, wakeups=True, consumers=True, reconnect=Non
                    key="one-at-a-time", where=disp.where)
             return
         ctx.require(len(gets) == 1 and len(heads) == 1, "dispatcher drain loop not recognised")
+        # the drain loop goes on as long as something is queued
+        hc = cnd.canon(heads[0].ast, True)
+        always = {("self._dispatch_queue.qsize() < 1", False), ("self._dispatch_queue.empty()", False), ("self._dispatch_queue.qsize() < 0", False), ("self._dispatch_queue.qsize() == 0", False)}
+        import re as _re
+
+        leaves = [(t, pol) for t, pol in hc if (t, pol) not in always]
+        short = [(t, pol) for t, pol in leaves if _re.fullmatch(r"self\._dispatch_queue\.qsize\(\) < \d+", t) and not pol]
+        ctx.require(not leaves or len(short) == len(leaves), f"dispatcher drain loop condition `{norm(heads[0].ast)}` not recognised")
+        ctx.ob(rule, disp.qualname, not short, "the drain loop runs while anything is queued" if not short else
+               f"the drain loop stops under `{norm(heads[0].ast)}` although blocks are still queued: the last block(s) wait until more traffic arrives", key="drains-all", where=disp.where)
         c1 = cfg.loop_iteration_counts(heads[0], lambda n: n in gets, no_exc=True)
         c2 = cfg.loop_iteration_counts(heads[0], lambda n: n is K, no_exc=True)
         ok = all(v == (1, 1) for v in c1.values()) and all(v == (1, 1) for v in c2.values()) and cfg.dominates(gets[0], K)
